@@ -307,6 +307,24 @@ def check_real_class(name, mk):
             bad.append((f'not-reproducible:{name}', f'two {name} models with seed 7 produce different streams'))
         if np.array_equal(a1, a2) and a1.std() > 0:
             bad.append((f'no-advance:{name}', f'successive sample calls of a seeded {name} return the same values'))
+        # LONG histories: four successive batches are pairwise different and are the twin's batches call by call; one call of 20 rows
+        # is not required to equal four calls of 5 (numpy draws per call), but the stream must keep moving after the second call
+        m5, m6 = mk(11), mk(11)
+        batches = [np.asarray(m5.sample(5)) for _ in range(4)]
+        twin = [np.asarray(m6.sample(5)) for _ in range(4)]
+        if batches[0].std() > 0:
+            stuck = [(i, j) for i in range(4) for j in range(i + 1, 4) if np.array_equal(batches[i], batches[j])]
+            if stuck:
+                bad.append((f'stream-stuck:{name}', f'seeded {name}: successive sample calls number {stuck[0][0] + 1} and {stuck[0][1] + 1} return identical values (the stream stopped advancing)'))
+            if not all(np.array_equal(x, y) for x, y in zip(batches, twin)):
+                bad.append((f'not-reproducible:{name}', f'two {name} models with seed 11 diverge within four successive calls'))
+        # the same when the seed is given AFTER construction
+        m7 = mk(None)
+        m7.set_random_state(11)
+        late = [np.asarray(m7.sample(5)) for _ in range(4)]
+        if batches[0].std() > 0 and not all(np.array_equal(x, y) for x, y in zip(batches, late)):
+            k = next(i for i, (x, y) in enumerate(zip(batches, late)) if not np.array_equal(x, y))
+            bad.append((f'late-seed-differs:{name}', f'{name}: set_random_state(11) after construction gives another stream than random_state=11 at construction (call {k + 1})'))
         # history: re-seeding restarts the stream; dropping the seed hands control to the global generator
         m1.set_random_state(7)
         a3 = np.asarray(m1.sample(5))
